@@ -2,7 +2,7 @@
    Only ExtrOcamlBasic (bool, option, list, pairs, unit -> OCaml natives);
    Z, positive, N, nat stay extracted datatypes; no Extract Constant. *)
 From Coq Require Import Extraction ExtrOcamlBasic.
-From PV Require Import Base Heap Rng NND Diversify SearchGraph RPTree Search SparseOps Metrics OT.
+From PV Require Import Base Heap Rng NND Diversify SearchGraph RPTree Search SparseOps Metrics OT Connect Alias.
 Extraction Language OCaml.
 Set Extraction KeepSingleton.
 Extraction "../ocaml/model.ml"
@@ -22,4 +22,6 @@ Extraction "../ocaml/model.ml"
   SparseOps.sparse_sum SparseOps.sparse_diff SparseOps.sparse_mul SparseOps.sparse_dot_product SparseOps.fast_intersection_size
   Metrics.counts Metrics.m_hamming Metrics.m_matching Metrics.m_jaccard Metrics.m_dice Metrics.m_kulsinski
   Metrics.m_rogerstanimoto Metrics.m_sokalmichener Metrics.m_russellrao Metrics.m_sokalsneath Metrics.m_yule
+  Alias.run Alias.init_state
+  Connect.rejection_sample Connect.conn_cert_chk Connect.sym_chk
   OT.ot_cert_chk Z.add Z.mul Z.opp.
